@@ -49,11 +49,18 @@ def run(res, tier):
     res.functions_analysed = sum(1 for g in fx.funcs.values() if g.full)
     res.rule('GUARD-ATOMS', 'PacketTunnelIOGateway::DoInputImplementation: the memcpy into the reassembly buffer is dominated by every atom of the acceptance test, the receive state is looked up by the '
                             'packet\'s source address, a new Message is started only at offset 0, and the hand-off happens only when the state offset equals the buffer size', floor=10)
+    # the copy of an accepted chunk into the reassembly buffer: memcpy(dst, reader.GetCurrentReadPointer(), n) or reader.ReadBytes(dst, n)
     cps = [c for c in P.calls(f, r'^memcpy$')]
-    if len(cps) != 1:
-        raise AnalysisBroken('PacketTunnelIOGateway::DoInputImplementation: expected one memcpy, found %d' % len(cps))
-    cp = cps[0]
-    dst, src, cnt = cp.args()[:3]
+    rbs = [c for c in f.walk() if c['k'] == 'CXXMemberCallExpr' and (c.get('q') or '').endswith('DataUnflattenerHelper::ReadBytes') and len(c.args()) >= 2 and any(x['k'] == 'MemberExpr' and x.get('n') == '_buf' for x in c.args()[0].walk())]
+    if len(cps) + len(rbs) != 1:
+        raise AnalysisBroken('PacketTunnelIOGateway::DoInputImplementation: expected one copy into the reassembly buffer (memcpy / ReadBytes), found %d' % (len(cps) + len(rbs)))
+    if cps:
+        cp = cps[0]
+        dst, src, cnt = cp.args()[:3]
+    else:
+        cp = rbs[0]
+        dst, cnt = cp.args()[:2]
+        src = cp['ch'][0]          # the reader object expression (receiver)
     # destination = <state>->_buf()->GetBuffer() + OFFSET ; source = reader.GetCurrentReadPointer() ; count = CHUNK
     d0 = A.strip_casts(dst)
     off = None
@@ -68,6 +75,8 @@ def run(res, tier):
     for x in src.walk():
         if x['k'] == 'CXXMemberCallExpr' and (x.get('q') or '').endswith('::GetCurrentReadPointer'):
             reader = A.root_loc(x.receiver())
+    if reader is None and rbs:
+        reader = A.root_loc(rbs[0].receiver())
     if off is None or rsd is None or 'd' not in off or 'd' not in chunk or reader is None:
         raise AnalysisBroken('memcpy operands do not have the shape (state->_buf()->GetBuffer()+offset, reader.GetCurrentReadPointer(), chunk)')
     od, cd = off['d'], chunk['d']
@@ -375,6 +384,7 @@ def run(res, tier):
         raise AnalysisBroken('MINI: no Deflate call in the packet tunnel senders')
     from . import C03
     C03.resume_offset_rule(res, fx, 'RESUME-OFFSET', file_re=r'^dataio/(PacketizedProxyDataIO|ByteBufferPacketDataIO)\.cpp$', floor=1)
+    round3_rules(res, fx, f, cd, reader)
     res.explanation = ('Static decision of the tunnel\'s acceptance structure: the operands of the reassembly memcpy are identified (state buffer + wire offset, reader pointer, wire chunk size) and each atom of the '
                        'acceptance test is required on a dominating branch edge — same source-keyed state, message id, offset, total size, overflow test, bounds, bytes available, magic — plus the '
                        'source-exclusion disjunction on every path; a Message starts only at offset 0; hand-off only for a complete buffer; writer/reader header order agrees. '
@@ -386,6 +396,96 @@ def run(res, tier):
 def wrole_chunk(w, d):
     e = local_def(w, d)
     return e is not None and any((x.get('q') or '').endswith('muscleMin') for x in e.walk() if x.is_call())
+
+
+def round3_rules(res, fx, fin, cd, reader):
+    # ADVANCE-ALWAYS: whether a chunk is accepted or ignored, the reader moves past its payload before the next chunk header is parsed
+    res.rule('ADVANCE-ALWAYS', 'PacketTunnelIOGateway::DoInputImplementation: inside the loop over the chunks of a packet, every path from the read of a chunk\'s size word back to the loop head '
+                               'passes reader.SeekRelative(chunk size) or reader.ReadBytes(…, chunk size)', floor=1)
+    vd = [v for v in fin.walk() if v['k'] == 'VarDecl' and v.get('d') == cd]
+    adv = [c for c in fin.walk() if c['k'] == 'CXXMemberCallExpr' and re.search(r'DataUnflattenerHelper::(SeekRelative|ReadBytes)$', c.get('q') or '') and A.root_loc(c.receiver()) == reader
+           and c.args() and A.strip_casts(c.args()[-1] if (c.get('q') or '').endswith('ReadBytes') else c.args()[0]).get('d') == cd]
+    ok = False
+    if vd:
+        pv = P.pos_of(fin, vd[0])
+        loops = [(h, body) for (h, body) in C.natural_loops(fin) if pv and pv[0] in body]
+        if loops:
+            (h, body) = min(loops, key=lambda hb: len(hb[1]))
+            ab = set(P.pos_of(fin, c)[0] for c in adv if P.pos_of(fin, c))
+            # walk inside the loop body from the size word to the head, avoiding the advancing blocks
+            seen, st, hit = set(), [pv[0]], False
+            while st:
+                x = st.pop()
+                if x in seen:
+                    continue
+                seen.add(x)
+                for s_ in fin.blocks[x].succ:
+                    if s_ is None or s_ < 0 or s_ not in body:
+                        continue
+                    if s_ == h:
+                        hit = True
+                    elif s_ not in ab:
+                        st.append(s_)
+            ok = bool(adv) and not hit and pv[0] not in ab
+    res.ob('ADVANCE-ALWAYS', fin.where(vd[0]) if vd else fin.where(), 'the chunk payload is skipped on every path to the next chunk header', ok, function=fin.q, key='ADVANCE-ALWAYS|%s' % fin.q,
+           how='%d advancing call(s)' % len(adv),
+           message='PacketTunnelIOGateway::DoInputImplementation can go on to the next chunk header without having moved past the payload of the current chunk (only accepted chunks advance the '
+                   'reader): the payload of an ignored fragment is parsed as fragment headers, and payload bytes that look like a header are delivered as a Message nobody sent')
+    # HOLD-ON-WOULDBLOCK: a packet is forgotten only after it has been written
+    res.rule('HOLD-PACKET', 'the packet tunnels reset their pending-output size (_outputPacketSize = 0) only after the Write() of that packet, never before it (a Write() that takes nothing leaves the '
+                            'packet pending for the next call)', floor=1)
+    n = 0
+    for g in sorted((g for g in fx.funcs.values() if g.full and g.q.endswith('PacketTunnelIOGateway::DoOutputImplementation')), key=lambda g: (g.file, g.line)):
+        resets = [w for w in g.walk() if w['k'] == 'BinaryOperator' and w.get('op') == '=' and A.strip_casts(w['ch'][0]).get('n') == '_outputPacketSize' and A.strip_casts(w['ch'][1]).get('v') == 0]
+        writes = [c for c in g.walk() if c['k'] == 'CXXMemberCallExpr' and re.search(r'DataIO::Write$', c.get('q') or '') and any(x['k'] == 'MemberExpr' and x.get('n') == '_outputPacketBuffer' for x in c.walk())]
+        if not resets or not writes:
+            continue
+        n += 1
+        bad = [w for w in resets if any(P.pos_of(g, w) and P.pos_of(g, c) and ((P.pos_of(g, w)[0] == P.pos_of(g, c)[0] and P.pos_of(g, w)[1] < P.pos_of(g, c)[1]) or
+                                                                             (P.pos_of(g, w)[0] != P.pos_of(g, c)[0] and C.block_dominates(g, P.pos_of(g, w)[0], P.pos_of(g, c)[0]))) for c in writes)]
+        res.ob('HOLD-PACKET', g.where(bad[0]) if bad else g.where(resets[0]), '%s: _outputPacketSize is cleared after the Write of the packet' % g.q.split('::')[-2], not bad, function=g.q, key='HOLD-PACKET|%s' % g.q,
+               message='%s clears _outputPacketSize before it calls Write(): when the DataIO takes nothing (would-block) the "hold this buffer until our next call" path has already forgotten the '
+                       'packet, and the Messages or fragments in it are never transmitted' % g.q)
+    if n < 1:
+        raise AnalysisBroken('HOLD-PACKET: no tunnel output routine with a pending-size reset and a Write found')
+    # PACK-WIDTH: a counter that shares a header word with another field stays within its field
+    res.rule('PACK-WIDTH', 'MiniPacketTunnelIOGateway: the packet-id counter that is OR-ed below (level << K) is reduced modulo 2^K (or masked) in every statement that changes it', floor=1)
+    m = 0
+    for g in sorted((g for g in fx.funcs.values() if g.full and g.q.startswith(MPT + '::')), key=lambda g: (g.file, g.line)):
+        for n_ in g.walk():
+            if n_['k'] == 'BinaryOperator' and n_.get('op') == '|':
+                for (a, b) in ((n_['ch'][0], n_['ch'][1]), (n_['ch'][1], n_['ch'][0])):
+                    a0, b0 = A.strip_casts(a), A.strip_casts(b)
+                    if a0['k'] == 'MemberExpr' and A.is_this_member(a0) and b0['k'] == 'BinaryOperator' and b0.get('op') == '<<' and A.strip_casts(b0['ch'][1]).get('v') is not None:
+                        K = A.strip_casts(b0['ch'][1])['v']
+                        cname = a0.get('n')
+                        m += 1
+                        bad = None
+                        for h in (h for h in fx.funcs.values() if h.full and h.q.startswith(MPT + '::') and not h.q.endswith('(ctor)')):
+                            for w in h.walk():
+                                tgt = None
+                                if w['k'] in ('BinaryOperator', 'CompoundAssignOperator') and w.get('op') in A.ASSIGN_OPS:
+                                    tgt = A.strip_casts(w['ch'][0])
+                                elif w['k'] == 'UnaryOperator' and w.get('op') in ('post++', 'pre++', 'post--', 'pre--'):
+                                    tgt = A.strip_casts(w['ch'][0])
+                                if tgt is None or tgt['k'] != 'MemberExpr' or tgt.get('n') != cname:
+                                    continue
+                                okw = False
+                                if w['k'] == 'BinaryOperator' and w.get('op') == '=':
+                                    r0 = A.strip_casts(w['ch'][1])
+                                    if r0.get('v') is not None and 0 <= r0['v'] < (1 << K):
+                                        okw = True
+                                    if r0['k'] == 'BinaryOperator' and r0.get('op') == '%' and A.strip_casts(r0['ch'][1]).get('v') is not None and A.strip_casts(r0['ch'][1])['v'] <= (1 << K):
+                                        okw = True
+                                    if r0['k'] == 'BinaryOperator' and r0.get('op') == '&' and any(A.strip_casts(y).get('v') is not None and A.strip_casts(y)['v'] < (1 << K) for y in r0['ch']):
+                                        okw = True
+                                if not okw:
+                                    bad = bad or (h, w)
+                        res.ob('PACK-WIDTH', g.where(n_), '`%s` stays below 2^%d wherever it is changed' % (cname, K), bad is None, function=g.q, key='PACK-WIDTH|%s|%s' % (MPT, cname),
+                               message='%s changes `%s` (line %s) without reducing it modulo 2^%d, but %s packs it as `%s`: after 2^%d packets the counter spills into the compression-level bits, raw '
+                                       'packets are labelled as deflated, the receiver fails to inflate them and drops them' % (bad[0].q if bad else '', cname, bad[1].get('l') if bad else '', K, g.q, n_.text(60), K))
+    if m < 1:
+        raise AnalysisBroken('PACK-WIDTH: the packing `counter | (level << K)` was not found in MiniPacketTunnelIOGateway')
 
 
 def mini_rule(res, fx):
